@@ -598,8 +598,27 @@ pub fn hidden_irrelevant_move(rng: &mut Rng, subgames: usize) -> HNode {
     }
 }
 
+/// A decision that matters above a decision that does not: player one stays out (payoff c) or
+/// enters; after entering, one of the players chooses among k actions that all lead to the same
+/// payoff v (exact ties in every regret of that infoset), with c strictly between v and k*v.
+pub fn irrelevant_decision_below(rng: &mut Rng, k: usize) -> HNode {
+    let owner = rng.below(2) as u8;
+    // positive for the owner of the irrelevant decision
+    let v = if owner == 0 { 0.25 } else { -0.25 };
+    let c = if owner == 0 { 0.375 } else { -0.375 };
+    let irrelevant = player(owner, "m", (0..k).map(|a| (format!("a{}", a), term(v))).collect());
+    let (first, second) = (("out".to_string(), term(c)), ("in".to_string(), irrelevant));
+    let root = player(0, "r", if rng.chance(0.5) { vec![first, second] } else { vec![second, first] });
+    if rng.chance(0.5) {
+        root
+    } else {
+        // the same decision reached after a chance move, next to an unrelated matrix game
+        chance(None, vec![(1.0, root), (2.0, matching_pennies())])
+    }
+}
+
 pub fn structured(rng: &mut Rng, which: usize) -> (String, HNode) {
-    match which % 16 {
+    match which % 17 {
         0 => ("matching_pennies".into(), matching_pennies()),
         1 => ("rps".into(), rps(1.0)),
         2 => {
@@ -643,6 +662,10 @@ pub fn structured(rng: &mut Rng, which: usize) -> (String, HNode) {
             let c = rng.range(1, 4);
             (format!("hidden_irrelevant_move(subgames={})", c), hidden_irrelevant_move(rng, c))
         }
+        16 => {
+            let k = rng.range(2, 4);
+            (format!("irrelevant_decision_below(k={})", k), irrelevant_decision_below(rng, k))
+        }
         _ => ("centipede_deep".into(), centipede(rng.range(100, 300))),
     }
 }
@@ -650,7 +673,7 @@ pub fn structured(rng: &mut Rng, which: usize) -> (String, HNode) {
 /// Workload mix used by most properties: mostly G1, some G2. Returns (description, tree).
 pub fn any_game(rng: &mut Rng, size: usize) -> (String, HNode) {
     if rng.chance(0.2) {
-        let w = rng.below(15); // deep centipede (13) only on request
+        let w = rng.below(16); // deep centipede (13) only on request
         structured(rng, if w >= 13 { w + 1 } else { w })
     } else {
         let par = GenParams::random(rng, size);
